@@ -22,10 +22,12 @@ def fail(sig, what, rep):
 
 
 def kind_of(name):
-    if name in ("321", "312", "32", "-4"):
+    if name in ("321", "312", "32"):
         return 1
     if name == "-3":
         return 2
+    if name == "-4":
+        return 3          # since the repair 5e95612: flip with the last element, then the proper elements
     return 0
 
 
